@@ -68,3 +68,106 @@ func vK16aSourceMap() {
 	_ = sourcemap.SourceMap{}
 	vReach("end")
 }
+
+// vK16aSections: index source maps ("sections"). Every section contributes
+// its own sources / sourcesContent / names arrays of independent lengths; the
+// parser aggregates them under shared indices. No panic for any combination
+// of lengths, and sourcesContent stays aligned with sources.
+func vK16aSections() {
+	nSec := hLen(1, vParam("SECTIONS", 3))
+	rich := vParam("RICH", 0) != 0
+	text := `{"version":3,"sections":[`
+	type want struct {
+		has bool
+		val string
+	}
+	var wants []want // expected content per aggregated source index
+	skipped := false
+	for s := 0; s < nSec; s++ {
+		nSources := 1 + vChoose(2)
+		if rich && vBool() {
+			nSources = 0
+		}
+		// sourcesContent: absent, shorter, equal, or longer than sources
+		scMode := vChoose(3)
+		nSC := -1
+		switch scMode {
+		case 1:
+			nSC = nSources
+		case 2:
+			nSC = nSources + 1
+		}
+		if rich && scMode == 0 && vBool() {
+			nSC = nSources - 1
+			if nSC < 0 {
+				nSC = 0
+			}
+		}
+		mappings := "AAAA"
+		if rich {
+			mappings = []string{"AAAA", "", "AAAA,CCAA", ";AAAA"}[vChoose(4)]
+		}
+		if s > 0 {
+			text += ","
+		}
+		text += `{"offset":{"line":` + string(rune('0'+s)) + `,"column":0},"map":{"version":3,"sources":[`
+		for k := 0; k < nSources; k++ {
+			if k > 0 {
+				text += ","
+			}
+			text += `"s` + string(rune('0'+s)) + string(rune('a'+k)) + `"`
+		}
+		text += `],`
+		if nSC >= 0 {
+			text += `"sourcesContent":[`
+			for k := 0; k < nSC; k++ {
+				if k > 0 {
+					text += ","
+				}
+				text += `"c` + string(rune('0'+s)) + string(rune('a'+k)) + `"`
+			}
+			text += `],`
+		}
+		text += `"names":[],"mappings":"` + mappings + `"}}`
+		if mappings == "" || nSources == 0 {
+			skipped = true // the parser ignores such a section entirely
+			continue
+		}
+		for k := 0; k < nSources; k++ {
+			if k < nSC {
+				wants = append(wants, want{true, "c" + string(rune('0'+s)) + string(rune('a'+k))})
+			} else {
+				wants = append(wants, want{false, ""})
+			}
+		}
+	}
+	text += `]}`
+	log := logger.NewDeferLog(logger.DeferLogNoVerboseOrDebug, nil)
+	sm := ParseSourceMap(log, logger.Source{Contents: text})
+	if sm == nil {
+		vReach("end")
+		return
+	}
+	vAssert(len(sm.SourcesContent) <= len(sm.Sources), "sourcesContent never has more entries than sources")
+	for _, mp := range sm.Mappings {
+		vAssert(mp.SourceIndex >= 0 && int(mp.SourceIndex) < len(sm.Sources), "every mapping's source index is inside sources[]")
+	}
+	if !skipped {
+		vAssert(len(sm.Sources) == len(wants), "every source of every section is listed")
+		for i, w := range wants {
+			if i < len(sm.SourcesContent) && w.has {
+				got := sm.SourcesContent[i].Value
+				same := len(got) == len(w.val)
+				for j := 0; same && j < len(got); j++ {
+					same = got[j] == uint16(w.val[j])
+				}
+				vAssert(same, "sourcesContent[i] is the content of sources[i] (arrays of different sections stay aligned)")
+			} else if i < len(sm.SourcesContent) {
+				vAssert(len(sm.SourcesContent[i].Value) == 0, "a source without content has an empty entry")
+			} else {
+				vAssert(!w.has, "content present in the input is not dropped")
+			}
+		}
+	}
+	vReach("end")
+}
